@@ -188,3 +188,13 @@ Fixpoint passed_from (g : gate) (K : text) (s : state) (i : N) (ops : list op) :
   | [] => []
   | (v, c) :: r => (if g i s v c then [(v, c)] else []) ++ passed_from g K (fst (attest_g g K s i v c)) (N.succ i) r
   end.
+
+(** ** Where the fields exempted from the hash are read (third round, seeded C11-E)
+    Orchestrator / Metadata / EventNonce are exempted from [effect_fields] because they are the voter's identity, the
+    transaction's metadata, and a number only ValidateBasic looks at.  That is only sound while the tally path
+    (TryAttestation and every helper it hands the claim to, the attestation handlers) reads nothing but hashed / key
+    fields, and EventNonce is read by nothing on the submission path but the claim's own ValidateBasic. *)
+Definition effect_reads_ok : bool :=
+  forallb (fun ct =>
+    forallb (fun f => mem f (hashed_fields ct) || mem f (G.key_fields ct)) (G.tally_fields ct)
+    && negb (mem "EventNonce"%string (G.submit_fields_nogate ct))) G.claim_types.
